@@ -8,6 +8,10 @@ template assigns only the left-hand variable; generate_solvers compiles each lin
 in a namespace of its own and returns x; generate_constraint couples with inner in
 the order given; the strictness tolerance is tol + |x|*rel with tol, rel >= 0
 enforced; the bounds constraint wiring (C02.g / C12.d).
+Round 3: the tolerance appended to the bound is constant-folded per comparator
+with the locals substituted in execution order; boundsconstrain is decided on
+its return terms (every (min[i], max[i]) reaches impose_bounds; symbolic
+pipeline).
 NOT decided: behaviour of the exec-generated functions on vectors.
 """
 import ast
